@@ -132,7 +132,7 @@ package controller
 //@ spec dry(c *Controller, g *NodeGroupState) bool = c.Opts.DryMode || g.Opts.DryMode
 //@ spec gid(g *NodeGroupState) string = g.Opts.CloudProviderGroupName
 // the journal before index n is what it was
-//@ spec jprefix(n int) bool = forall k :: 0 <= k && k < n ==> Jkind[k] == old(Jkind)[k] && Jname[k] == old(Jname)[k] && Jok[k] == old(Jok)[k] && Jnode[k] == old(Jnode)[k] && Jnum[k] == old(Jnum)[k] && Jesc[k] == old(Jesc)[k]
+//@ spec jprefix(n int) bool = forall k :: k < n ==> Jkind[k] == old(Jkind)[k] && Jname[k] == old(Jname)[k] && Jok[k] == old(Jok)[k] && Jnode[k] == old(Jnode)[k] && Jnum[k] == old(Jnum)[k] && Jesc[k] == old(Jesc)[k]
 
 //@ func (*Controller).dryMode(c, nodeGroup) (r)
 //@   requires c != nil && nodeGroup != nil
@@ -156,3 +156,138 @@ package controller
 //@   ensures err == nil ==> n >= 1 && n <= opts.nodesDelta
 //@   ensures err == nil && !dry(c, opts.nodeGroup) ==> Jlen == old(Jlen) + 1 && Jok[old(Jlen)] && Jnum[old(Jlen)] == n
 //@   ensures err != nil ==> n == 0 && (Jlen == old(Jlen) || !Jok[old(Jlen)])
+
+// ---------------------------------------------------------------- sort.go
+
+//@ import metav1 "k8s.io/apimachinery/pkg/apis/meta/v1"
+//@ assume func (*k8s.io/apimachinery/pkg/apis/meta/v1.Time).Before(t, u) (r)
+//@   pure
+//@   ensures r <==> (t != nil && u != nil && t.Time < u.Time)
+
+// older(a, b): node a was created strictly before node b
+//@ spec older(a *v1.Node, b *v1.Node) bool = a.CreationTimestamp.Time < b.CreationTimestamp.Time
+
+//@ func (nodesByOldestCreationTime).Len(n) (r)
+//@   ensures r == len(n)
+//@ func (nodesByOldestCreationTime).Less(n, i, j) (r)
+//@   requires 0 <= i && i < len(n) && 0 <= j && j < len(n) && n[i].node != nil && n[j].node != nil
+//@   ensures [C08] r <==> older(n[i].node, n[j].node)
+//@ func (nodesByNewestCreationTime).Len(n) (r)
+//@   ensures r == len(n)
+//@ func (nodesByNewestCreationTime).Less(n, i, j) (r)
+//@   requires 0 <= i && i < len(n) && 0 <= j && j < len(n) && n[i].node != nil && n[j].node != nil
+//@   ensures [C07] r <==> older(n[j].node, n[i].node)
+
+// sort.Sort permutes the elements in place (sperm/spinv: the permutation and its
+// inverse, per backing array) and leaves no pair i<j with Less(j,i) — with Less as
+// verified just above.
+//@ spec sperm(b ref, i int) int
+//@ spec spinv(b ref, i int) int
+//@ assume func sort.Sort:controller.nodesByOldestCreationTime(data)
+//@   requires forall i :: 0 <= i && i < len(data) ==> data[i].node != nil
+//@   modifies elems(data)
+//@   ensures forall i :: 0 <= i && i < len(data) ==> 0 <= sperm(base(data), i) && sperm(base(data), i) < len(data) && spinv(base(data), sperm(base(data), i)) == i && data[i].node == old(data[sperm(base(data), i)].node) && data[i].index == old(data[sperm(base(data), i)].index)
+//@   ensures forall j :: 0 <= j && j < len(data) ==> 0 <= spinv(base(data), j) && spinv(base(data), j) < len(data) && sperm(base(data), spinv(base(data), j)) == j
+//@   ensures [C08] forall i, j :: 0 <= i && i < j && j < len(data) ==> !older(data[j].node, data[i].node)
+//@ assume func sort.Sort:controller.nodesByNewestCreationTime(data)
+//@   requires forall i :: 0 <= i && i < len(data) ==> data[i].node != nil
+//@   modifies elems(data)
+//@   ensures forall i :: 0 <= i && i < len(data) ==> 0 <= sperm(base(data), i) && sperm(base(data), i) < len(data) && spinv(base(data), sperm(base(data), i)) == i && data[i].node == old(data[sperm(base(data), i)].node) && data[i].index == old(data[sperm(base(data), i)].index)
+//@   ensures forall j :: 0 <= j && j < len(data) ==> 0 <= spinv(base(data), j) && spinv(base(data), j) < len(data) && sperm(base(data), spinv(base(data), j)) == j
+//@   ensures [C07] forall i, j :: 0 <= i && i < j && j < len(data) ==> !older(data[i].node, data[j].node)
+
+// ---------------------------------------------------------------- scale_down.go: tainting
+
+// taintOldestN. C03: at most max(n,0) successful taint writes. C11: no write in dry mode.
+//@ func (*Controller).taintOldestN(c, nodes, nodeGroup, n) (res)
+//@   requires c != nil && nodeGroup != nil && c.Client != nil && n >= 0
+//@   requires forall i :: 0 <= i && i < len(nodes) ==> nodes[i] != nil
+//@   modifies Jlen, Jkind, Jname, Jnode, Jok, Jesc, clock, nTaintOK, nUntaintOK, getSeen, nodeGroup.taintTracker, elems(nodeGroup.taintTracker)
+//@   ensures len(res) <= n && Jlen >= old(Jlen) && jprefix(old(Jlen)) && clock >= old(clock)
+//@   ensures [C03] nUntaintOK == old(nUntaintOK) && old(nTaintOK) <= nTaintOK && nTaintOK - old(nTaintOK) <= len(res)
+//@   ensures [C11] dry(c, nodeGroup) ==> Jlen == old(Jlen) && nTaintOK == old(nTaintOK)
+//@   ensures forall k :: old(Jlen) <= k && k < Jlen ==> Jkind[k] == K_UPDATE && (exists i :: 0 <= i && i < len(nodes) && nodes[i].Name == Jname[k])
+//@ loop #0
+//@   modifies elems(sorted)
+//@   invariant len(sorted) == #i && base(sorted) == entry(base(sorted)) && cap(sorted) == len(nodes) && off(sorted) == 0
+//@   invariant forall k :: 0 <= k && k < #i ==> sorted[k].node == nodes[k] && sorted[k].index == k
+//@ loop #1
+//@   modifies elems(taintedIndices), nodeGroup.taintTracker, elems(nodeGroup.taintTracker)
+//@   invariant base(taintedIndices) == entry(base(taintedIndices)) && cap(taintedIndices) == n && off(taintedIndices) == 0
+//@   invariant (base(nodeGroup.taintTracker) == entry(base(nodeGroup.taintTracker)) && off(nodeGroup.taintTracker) == entry(off(nodeGroup.taintTracker)) && cap(nodeGroup.taintTracker) == entry(cap(nodeGroup.taintTracker))) || birth(base(nodeGroup.taintTracker)) >= entry(now)
+//@   invariant len(taintedIndices) <= n && Jlen >= old(Jlen) && jprefix(old(Jlen)) && clock >= old(clock)
+//@   invariant nUntaintOK == old(nUntaintOK) && old(nTaintOK) <= nTaintOK && nTaintOK - old(nTaintOK) <= len(taintedIndices)
+//@   invariant dry(c, nodeGroup) ==> Jlen == old(Jlen) && nTaintOK == old(nTaintOK)
+//@   invariant forall k :: old(Jlen) <= k && k < Jlen ==> Jkind[k] == K_UPDATE && (exists p :: 0 <= p && p < len(sorted) && sorted[p].node.Name == Jname[k])
+//@   invariant forall p :: 0 <= p && p < len(sorted) ==> sorted[p].node != nil && 0 <= sorted[p].index && sorted[p].index < len(nodes) && sorted[p].node == nodes[sorted[p].index]
+
+// ---------------------------------------------------------------- scale_up.go: untainting
+
+// untaintNewestN. C07: at most n successful untaints, and when fewer than n succeeded every
+// tainted node given was attempted (its fresh copy was fetched). C11: no write in dry mode.
+//@ func (*Controller).untaintNewestN(c, nodes, nodeGroup, n) (res)
+//@   requires c != nil && nodeGroup != nil && c.Client != nil && n >= 0
+//@   requires forall i :: 0 <= i && i < len(nodes) ==> nodes[i] != nil
+//@   modifies Jlen, Jkind, Jname, Jnode, Jok, Jesc, nTaintOK, nUntaintOK, getSeen, nodeGroup.taintTracker, elems(nodeGroup.taintTracker)
+//@   ensures len(res) <= n && Jlen >= old(Jlen) && jprefix(old(Jlen))
+//@   ensures [C03,C06,C07] nTaintOK == old(nTaintOK) && old(nUntaintOK) <= nUntaintOK && nUntaintOK - old(nUntaintOK) <= len(res)
+//@   ensures [C11] dry(c, nodeGroup) ==> Jlen == old(Jlen) && nUntaintOK == old(nUntaintOK)
+//@   ensures forall k :: old(Jlen) <= k && k < Jlen ==> Jkind[k] == K_UPDATE && (exists i :: 0 <= i && i < len(nodes) && nodes[i].Name == Jname[k])
+//@   ensures [C07] !dry(c, nodeGroup) && len(res) < n ==> (forall i :: 0 <= i && i < len(nodes) && k8s.hasEsc(nodes[i]) ==> getSeen[nodes[i].Name])
+//@ loop #0
+//@   modifies elems(sorted)
+//@   invariant len(sorted) == #i && base(sorted) == entry(base(sorted)) && cap(sorted) == len(nodes) && off(sorted) == 0
+//@   invariant forall k :: 0 <= k && k < #i ==> sorted[k].node == nodes[k] && sorted[k].index == k
+//@ loop #1
+//@   modifies elems(untaintedIndices), nodeGroup.taintTracker, elems(nodeGroup.taintTracker)
+//@   invariant base(untaintedIndices) == entry(base(untaintedIndices)) && cap(untaintedIndices) == n && off(untaintedIndices) == 0
+//@   invariant len(untaintedIndices) <= n && Jlen >= old(Jlen) && jprefix(old(Jlen))
+//@   invariant [C03,C06,C07] nTaintOK == old(nTaintOK) && old(nUntaintOK) <= nUntaintOK && nUntaintOK - old(nUntaintOK) <= len(untaintedIndices)
+//@   invariant dry(c, nodeGroup) ==> Jlen == old(Jlen) && nUntaintOK == old(nUntaintOK)
+//@   invariant forall k :: old(Jlen) <= k && k < Jlen ==> Jkind[k] == K_UPDATE && (exists p :: 0 <= p && p < len(sorted) && sorted[p].node.Name == Jname[k])
+//@   invariant forall p :: 0 <= p && p < len(sorted) ==> sorted[p].node != nil && 0 <= sorted[p].index && sorted[p].index < len(nodes) && sorted[p].node == nodes[sorted[p].index]
+//@   invariant [C07] !dry(c, nodeGroup) ==> (forall p :: 0 <= p && p < #i && k8s.hasEsc(sorted[p].node) ==> getSeen[sorted[p].node.Name])
+//@   invariant [C07] forall s string :: old(getSeen)[s] ==> getSeen[s]
+//@   invariant [C07] forall q {elemref(nodes, q)} :: 0 <= q && q < len(nodes) ==> 0 <= spinv(base(sorted), q) && spinv(base(sorted), q) < len(sorted) && sorted[spinv(base(sorted), q)].index == q
+//@   invariant base(nodeGroup.taintTracker) == entry(base(nodeGroup.taintTracker)) && off(nodeGroup.taintTracker) == entry(off(nodeGroup.taintTracker)) && cap(nodeGroup.taintTracker) == entry(cap(nodeGroup.taintTracker))
+
+//@ spec nodesOK(s []*v1.Node) bool = forall i :: 0 <= i && i < len(s) ==> s[i] != nil
+//@ spec namedIn(name string, s []*v1.Node) bool = exists i :: 0 <= i && i < len(s) && s[i].Name == name
+
+//@ func (*Controller).scaleUpUntaint(c, opts) (n, err)
+//@   requires c != nil && opts.nodeGroup != nil && c.Client != nil && opts.nodesDelta >= 0 && nodesOK(opts.taintedNodes)
+//@   modifies Jlen, Jkind, Jname, Jnode, Jok, Jesc, nTaintOK, nUntaintOK, getSeen, opts.nodeGroup.taintTracker, elems(opts.nodeGroup.taintTracker)
+//@   ensures err == nil && 0 <= n && n <= opts.nodesDelta && Jlen >= old(Jlen) && jprefix(old(Jlen))
+//@   ensures [C03,C06,C07] nTaintOK == old(nTaintOK) && old(nUntaintOK) <= nUntaintOK && nUntaintOK - old(nUntaintOK) <= n
+//@   ensures [C11] dry(c, opts.nodeGroup) ==> Jlen == old(Jlen) && nUntaintOK == old(nUntaintOK)
+//@   ensures forall k :: old(Jlen) <= k && k < Jlen ==> Jkind[k] == K_UPDATE && namedIn(Jname[k], opts.taintedNodes)
+//@   ensures [C07] !dry(c, opts.nodeGroup) && n < opts.nodesDelta ==> (forall i :: 0 <= i && i < len(opts.taintedNodes) && k8s.hasEsc(opts.taintedNodes[i]) ==> getSeen[opts.taintedNodes[i].Name])
+
+// ScaleUp. C07: untaint first; at most one cloud request, as the last event, for exactly the
+// remainder after the clamp; never while a tainted node was left unattempted.
+// C02/C18: the lock is armed iff the cloud accepted the increase, after it, at the current clock.
+//@ func (*Controller).ScaleUp(c, opts) (n, err)
+//@   requires c != nil && opts.nodeGroup != nil && c.Client != nil && c.cloudProvider != nil && opts.nodesDelta >= 0 && nodesOK(opts.taintedNodes)
+//@   modifies Jlen, Jkind, Jname, Jnode, Jok, Jesc, Jnum, nTaintOK, nUntaintOK, getSeen, clock, opts.nodeGroup.taintTracker, elems(opts.nodeGroup.taintTracker), opts.nodeGroup.scaleUpLock.isLocked, opts.nodeGroup.scaleUpLock.requestedNodes, opts.nodeGroup.scaleUpLock.lockTime
+//@   ensures Jlen >= old(Jlen) && jprefix(old(Jlen)) && clock >= old(clock)
+//@   ensures [C03,C06,C07] nTaintOK == old(nTaintOK) && old(nUntaintOK) <= nUntaintOK && nUntaintOK - old(nUntaintOK) <= opts.nodesDelta
+//@   ensures [C11] dry(c, opts.nodeGroup) ==> Jlen == old(Jlen) && nUntaintOK == old(nUntaintOK)
+//@   ensures forall k :: old(Jlen) <= k && k < Jlen ==> (Jkind[k] == K_UPDATE && namedIn(Jname[k], opts.taintedNodes)) || (Jkind[k] == C_INCREASE && k == Jlen - 1 && Jname[k] == gid(opts.nodeGroup) && Jnum[k] >= 1)
+//@   ensures [C04] forall k :: old(Jlen) <= k && k < Jlen && Jkind[k] == C_INCREASE ==> tgt(gid(opts.nodeGroup)) + Jnum[k] <= min(opts.nodeGroup.Opts.MaxNodes, cmax(gid(opts.nodeGroup)))
+//@   ensures [C07] Jlen > old(Jlen) && Jkind[Jlen - 1] == C_INCREASE ==> (exists u :: 0 <= u && u < opts.nodesDelta && nUntaintOK - old(nUntaintOK) <= u && Jnum[Jlen - 1] == min(opts.nodesDelta - u, min(opts.nodeGroup.Opts.MaxNodes, cmax(gid(opts.nodeGroup))) - tgt(gid(opts.nodeGroup))))
+//@   ensures [C07] Jlen > old(Jlen) && Jkind[Jlen - 1] == C_INCREASE && !dry(c, opts.nodeGroup) ==> (forall i :: 0 <= i && i < len(opts.taintedNodes) && k8s.hasEsc(opts.taintedNodes[i]) ==> getSeen[opts.taintedNodes[i].Name])
+//@   ensures [C02,C18] (Jlen > old(Jlen) && Jkind[Jlen - 1] == C_INCREASE && Jok[Jlen - 1]) ==> opts.nodeGroup.scaleUpLock.isLocked && opts.nodeGroup.scaleUpLock.lockTime == clock
+//@   ensures [C02,C18] !(Jlen > old(Jlen) && Jkind[Jlen - 1] == C_INCREASE && Jok[Jlen - 1]) && !dry(c, opts.nodeGroup) ==> opts.nodeGroup.scaleUpLock.isLocked == old(opts.nodeGroup.scaleUpLock.isLocked) && opts.nodeGroup.scaleUpLock.lockTime == old(opts.nodeGroup.scaleUpLock.lockTime) && opts.nodeGroup.scaleUpLock.requestedNodes == old(opts.nodeGroup.scaleUpLock.requestedNodes)
+//@   ensures [C18] err != nil ==> opts.nodeGroup.scaleUpLock.isLocked == old(opts.nodeGroup.scaleUpLock.isLocked) && opts.nodeGroup.scaleUpLock.lockTime == old(opts.nodeGroup.scaleUpLock.lockTime)
+//@   ensures opts.nodeGroup.scaleUpLock.minimumLockDuration == old(opts.nodeGroup.scaleUpLock.minimumLockDuration)
+
+// scaleDownTaint. C03: never more successful taints than untainted - min_nodes; refuses below the minimum.
+//@ func (*Controller).scaleDownTaint(c, opts) (n, err)
+//@   requires c != nil && opts.nodeGroup != nil && c.Client != nil && opts.nodesDelta >= 0 && nodesOK(opts.untaintedNodes)
+//@   modifies Jlen, Jkind, Jname, Jnode, Jok, Jesc, clock, nTaintOK, nUntaintOK, getSeen, opts.nodeGroup.taintTracker, elems(opts.nodeGroup.taintTracker)
+//@   ensures Jlen >= old(Jlen) && jprefix(old(Jlen)) && clock >= old(clock)
+//@   ensures [C03,C06] nUntaintOK == old(nUntaintOK) && old(nTaintOK) <= nTaintOK && nTaintOK - old(nTaintOK) <= max(0, len(opts.untaintedNodes) - opts.nodeGroup.Opts.MinNodes) && nTaintOK - old(nTaintOK) <= opts.nodesDelta
+//@   ensures [C03] len(opts.untaintedNodes) < opts.nodeGroup.Opts.MinNodes ==> err != nil && Jlen == old(Jlen) && nTaintOK == old(nTaintOK)
+//@   ensures [C11] dry(c, opts.nodeGroup) ==> Jlen == old(Jlen) && nTaintOK == old(nTaintOK)
+//@   ensures forall k :: old(Jlen) <= k && k < Jlen ==> Jkind[k] == K_UPDATE && namedIn(Jname[k], opts.untaintedNodes)
+//@   ensures err == nil ==> 0 <= n && n <= opts.nodesDelta
